@@ -253,3 +253,14 @@ package db
 //@ ensures[keepmax6] rec.Qtype == dns.TypeAAAA && old(len(w.V6)) == w.MaxAnswers ==> forall(j, 0, len(w.V6), w.V6[j].Key >= old(w.V6[j].Key))
 //@ loop 0 invariant 0 <= idx0 && idx0 <= len(items) && (idx == -1 ==> minKey == key) && (idx != -1 ==> 0 <= idx && idx < idx0 && items[idx].Key == minKey && minKey < key) && forall(j, 0, idx0, items[j].Key >= minKey) && forall(j, 0, len(items), items[j] == old(w.V4[j])) && items == old(w.V4)
 //@ loop 1 invariant 0 <= idx1 && idx1 <= len(items) && (idx == -1 ==> minKey == key) && (idx != -1 ==> 0 <= idx && idx < idx1 && items[idx].Key == minKey && minKey < key) && forall(j, 0, idx1, items[j].Key >= minKey) && forall(j, 0, len(items), items[j] == old(w.V6[j])) && items == old(w.V6)
+
+// DB.Reload as its callers see it (summary of its three regions, which are verified separately):
+// a failing or timed-out reload returns the receiver, a successful one returns an open DB.
+//@ func DB.Reload
+//@ trusted
+//@ updates closes
+//@ requires dbInv(f) && !f.destroyable && closes[f.dbi] == 0
+//@ modifies f
+//@ ensures err != nil ==> result0 == f && dbInv(f) && !f.destroyable && closes[f.dbi] == 0
+//@ ensures err == nil ==> result0 != nil && dbInv(result0) && !result0.destroyable && closes[result0.dbi] == 0
+//@ ensures err == nil && result0 != f ==> f.destroyable && dbInv(f)
